@@ -9,27 +9,35 @@
    token / stake unit, index = addresses of the existing validators, delegator
    accounts and validators agree (lists readable, both directions, balance =
    sum).  [safe ops] (Proofs.v / ProofsSim.hpre) says that no operation of the
-   history enters one of the three open finding classes
+   history enters one of the four open finding classes
      F5 delegate-from-missing-account (UpdateDelegation from an address without account),
      F7 stale-index-reload (GetValidatorsForUpdate while the in-memory index is
         empty and the persisted one is not: every validator removed since the last root),
      F8 copy-reindexes-removed-validator (Copy while a removed validator is
         finalised but not yet rooted),
+     F9 inplace-update-then-revert (RevertToSnapshot to a revision older than a
+        journal entry whose new value is an object that a caller has since changed
+        in place and passed to UpdateValidator(live, copy): OUpdateIn),
    or breaks the callers' discipline (stake = token/unit on creation, updates
    that move the total by the change of the self part, no delegation withdrawn
    below zero, RemoveValidator only of validators without delegations, valid
    roles and revision ids).  F7 and F8 need RemoveValidator, which no code of
-   the repository calls.  The classes F1-F4, F6 of earlier revisions were
+   the repository calls; F9 needs a revert across an in-place update, and the
+   in-place callers (pinned in Bridge.v from a go/ast inventory) all run in the
+   end-of-block processing, outside any snapshot.  The classes F1-F4, F6 of earlier revisions were
    repaired in the repository (fe4c1ff, b4b663f, 20d771e, 464c034, 0cdbb3b,
    877ecbf); their witnesses are regression cases now.  The ghost number t of
-   wf/R/hpre is 0 along every run from [init] (vestigial). *)
+   wf/R/hpre/taint_next is the length of the oldest part of the validator journal
+   that an in-place update has detached from what it recorded (0 unless an
+   OUpdateIn hits an object some journal entry points at; back to 0 when the
+   journal is cleared). *)
 From VF.C08 Require Import Model Abstract ProofsA ProofsSim Proofs Witnesses Bridge.
 Local Open Scope Z_scope.
 
 (* the full-strength statement: over every history whatsoever *)
 Definition C08_full : Prop := forall ops s, run init ops = Some s -> inv_all s = true.
 
-(* 1. it is false for the code as it is: three classes of histories break it *)
+(* 1. it is false for the code as it is: four classes of histories break it *)
 Theorem C08_full_refuted : ~ C08_full.
 Proof. exact full_statement_refuted. Qed.
 Print Assumptions C08_full_refuted.
@@ -78,6 +86,23 @@ Print Assumptions C08_refuted_stale_index_reload.
 Theorem C08_refuted_copy_reindexes_removed_validator : refutes w_f8.
 Proof. exact refuted_f8. Qed.
 Print Assumptions C08_refuted_copy_reindexes_removed_validator.
+Theorem C08_refuted_inplace_update_then_revert : refutes w_f9.
+Proof. exact refuted_f9. Qed.
+Print Assumptions C08_refuted_inplace_update_then_revert.
+
+(* the in-place calling convention as such is covered: the status change of
+   staking.teDelegationSub (UpdateDelegation, then newVal.Status = Offline in place and
+   UpdateValidator(newVal, copy)), a later snapshot/deposit/revert and an in-place
+   rewards change form a safe history; the property holds at its end and the
+   validator has moved from the online to the offline statistics *)
+Theorem C08_inplace_convention_keeps_statistics :
+  holds_b ex_inplace = true /\
+  match run init ex_inplace with
+  | Some s => (on_count (k0 (stat_ s)), off_count (k0 (stat_ s)), off_stake (k0 (stat_ s))) = (0, 1, 10)
+  | None => False
+  end.
+Proof. exact inplace_holds. Qed.
+Print Assumptions C08_inplace_convention_keeps_statistics.
 
 (* the repaired classes: their former witnesses are safe histories satisfying the property *)
 Theorem C08_repaired_classes_hold : holds_b r_f2 = true /\ holds_b r_f3 = true /\ holds_b r_f6 = true.
@@ -99,6 +124,14 @@ Print Assumptions C08_validators_sort_total.
 Theorem C08_repo_params_match : params_match = true.
 Proof. exact repo_params_match. Qed.
 Print Assumptions C08_repo_params_match.
+
+(* every call of UpdateValidator in staking/ and core/ uses one of the two conventions;
+   the in-place callers and the fields they write are the pinned ones; StakeEqual and
+   the statistics read Role, Stake, Status, Token only; every field a caller writes is
+   carried by the model's update record or invisible to them *)
+Theorem C08_repo_update_callers_pinned : callers_pinned = true.
+Proof. exact repo_callers_pinned. Qed.
+Print Assumptions C08_repo_update_callers_pinned.
 
 (* non-vacuity: a concrete history outside all finding classes that creates
    three validators, delegates, withdraws a delegation completely, reverts a
